@@ -95,6 +95,8 @@ def history(tid, fe_name, kind, rng, length, fixed=None):
     conn = fe.open()
     ev = []
     for step in range(length if fixed is None else len(fixed)):
+        if D.POISONED:
+            break                 # a handler hung (reported at the request that did it): nothing more is fed in this process
         c = rng.random()
         if fixed is not None:
             c = 1.0
@@ -126,7 +128,7 @@ def history(tid, fe_name, kind, rng, length, fixed=None):
         else:
             pdu = rand_req(rng, kind) if fixed is None else bytes(fixed[step][1])
             tidn, uid = rng.randint(1, 65535), rng.choice([1, 2, 17, 247])
-            r = fe.feed(conn, F.pyframe(kind, tidn, 0, uid, pdu))
+            r = D.safe_feed(fe, conn, F.pyframe(kind, tidn, 0, uid, pdu))
             rsp, hdr = [], 0
             if r["writes"]:
                 w = r["writes"][0][1]
@@ -195,6 +197,8 @@ def replay_history(tid, h, fe_name, rng):
     ev = []
     events = {4: EV.EnteredListenModeEvent(), 72: EV.RemoteReceiveEvent(overrun=True)}
     for st in h["hist"]:
+        if D.POISONED:
+            break
         if st["op"] == "inc":
             k = st["a"]
             setattr(mcb.Counter, CNT[k - 1], getattr(mcb.Counter, CNT[k - 1]) + 1)
@@ -213,7 +217,7 @@ def replay_history(tid, h, fe_name, rng):
         else:
             pdu = bytes(st["pdu"])
             tidn, uid = rng.randint(1, 65535), rng.choice([1, 2, 17, 247])
-            r = fe.feed(conn, F.pyframe(kind, tidn, 0, uid, pdu))
+            r = D.safe_feed(fe, conn, F.pyframe(kind, tidn, 0, uid, pdu))
             rsp, hdr = [], 0
             if r["writes"]:
                 w = r["writes"][0][1]
@@ -274,7 +278,8 @@ def run_into(rep, prop, tier, rng):
     base = next((t for t in ok if any(e["op"] == "req" and e["nrsp"] == 1 and e["pdu"][:2] == [8, 0] and 11 <= e["pdu"][2] <= 19
                                       for e in t["ev"])), None)
     if base is None:
-        if not traces or len(ok) * 2 < len(traces):
+        if not traces or len(ok) * 2 < len(traces) or rep.violations or D.POISONED:
+            rep.notes["device_self_test"] = "skipped: no accepted history with a counter read in this run"
             return
         raise MachineryError("device self-test: no accepted history with a counter read")
     m1, m2 = copy.deepcopy(base), copy.deepcopy(base)
